@@ -235,7 +235,7 @@ int main(int argc, char **argv) {
         std::vector<int> order;
         if (!pc.get("order").empty()) for (auto &s : vr::split(pc.get("order"), '.')) order.push_back(atoi(s.c_str()));
         B b(pc.g, pc.w, order.empty() ? nullptr : &order);
-        auto cyc = vg::all_simple_cycles(pc.g);
+        std::vector<uint64_t> cyc; if (comp == "collections") cyc = vg::all_simple_cycles(pc.g);
         if (comp == "forest" && !order.empty()) { try { check_forest(R, pc.g, pc.w, b, "order=" + pc.get("order")); } catch (std::exception &e) { R.violation({comp, "exception", A.get("replay-case"), e.what()}); } }
         else run_case(R, pc.g, pc.w, b, cyc, vg::cycle_space_dim(pc.g));
         if (R.vf) fclose(R.vf);
